@@ -9,9 +9,11 @@
 
    Python dicts are association lists (insertion order kept, `aset` overwrites in place).
    Strings are ASCII (Coq `string`). *)
-From Coq Require Import ZArith List Bool String Ascii.
-From Verif Require Import Gen.C19_BoolStates.
+From Coq Require Import ZArith QArith List Bool String Ascii.
+From Verif Require Import Lib.Dyadic Gen.C19_BoolStates.
 Import ListNotations.
+Close Scope Q_scope.
+Close Scope Z_scope.
 Open Scope string_scope.
 
 (* ================================================================== strings *)
@@ -472,6 +474,94 @@ Definition val_int (v : string) : res Z :=
            end in
   match r with Some z => Ok z | None => Err ErrValue end.
 
+(* entry.float : Python float(str) on ASCII.  The model gives the exact decimal value m * 10^e (FDec), the observation
+   the IEEE double Python returned (FDy); they agree when the double is the one nearest to the decimal value. *)
+Inductive fval : Set := FDec (m e : Z) | FInf (neg : bool) | FNaN | FDy (d : dy).
+
+(* a run of digits with single underscores between digits; value, number of digits, rest *)
+Fixpoint scan_digits (acc n : Z) (prev_digit : bool) (s : string) : option (Z * Z * string) :=
+  match s with
+  | EmptyString => if (prev_digit || (n =? 0)%Z)%bool then Some (acc, n, EmptyString) else None
+  | String a r =>
+      match digit_val a with
+      | Some d => scan_digits (acc * 10 + d) (n + 1) true r
+      | None =>
+          if Ascii.eqb a underscore then (if prev_digit then scan_digits acc n false r else None)
+          else if (prev_digit || (n =? 0)%Z)%bool then Some (acc, n, s) else None
+      end
+  end.
+
+Definition float_exponent (r : string) : option Z :=
+  match r with
+  | EmptyString => Some 0%Z
+  | String c r' =>
+      if (Ascii.eqb c "e" || Ascii.eqb c "E")%bool then
+        let '(neg, digits) := match r' with
+                              | String "-" t => (true, t)
+                              | String "+" t => (false, t)
+                              | _ => (false, r')
+                              end in
+        match scan_digits 0 0 false digits with
+        | Some (x, n, EmptyString) => if (0 <? n)%Z then Some (if neg then (- x)%Z else x) else None
+        | _ => None
+        end
+      else None
+  end.
+
+Definition float_unsigned (s : string) : option (Z * Z) :=
+  match scan_digits 0 0 false s with
+  | Some (m1, n1, r1) =>
+      let frac := match r1 with
+                  | String "." r => match scan_digits m1 0 false r with
+                                    | Some (m2, n2, r2) => Some (m2, n2, r2)
+                                    | None => None
+                                    end
+                  | _ => Some (m1, 0%Z, r1)
+                  end in
+      match frac with
+      | Some (m, n2, r2) =>
+          if (0 <? n1 + n2)%Z then
+            match float_exponent r2 with Some x => Some (m, (x - n2)%Z) | None => None end
+          else None
+      | None => None
+      end
+  | None => None
+  end.
+
+Definition float_special (s : string) : option fval :=
+  let l := lower s in
+  if (String.eqb l "inf" || String.eqb l "infinity")%bool then Some (FInf false)
+  else if String.eqb l "nan" then Some FNaN else None.
+
+Definition val_float (v : string) : res fval :=
+  let s := strip v in
+  let '(neg, body) := match s with
+                      | String "-" t => (true, t)
+                      | String "+" t => (false, t)
+                      | _ => (false, s)
+                      end in
+  match float_unsigned body with
+  | Some (m, e) => Ok (FDec (if neg then (- m)%Z else m) e)
+  | None =>
+      match float_special body with
+      | Some (FInf _) => Ok (FInf neg)
+      | Some f => Ok f
+      | None => Err ErrValue
+      end
+  end.
+
+Definition dec_toQ (m e : Z) : Q :=
+  if (0 <=? e)%Z then inject_Z (m * 10 ^ e) else Qmake m (Z.to_pos (10 ^ (- e))).
+
+(* model value against observed double *)
+Definition fval_agree (a b : fval) : bool :=
+  match a, b with
+  | FDec m e, FDy d => is_nearest_double (dec_toQ m e) d
+  | FInf n, FDy (DInf n') => Bool.eqb n n'
+  | FNaN, FDy DNaN => true
+  | _, _ => false
+  end.
+
 (* ================================================================== _replace *)
 
 Definition is_word (a : ascii) : bool :=
@@ -787,27 +877,30 @@ Fixpoint partition_dunder (s : string) : string * bool * string :=
 Definition res_map {A B} (f : A -> B) (r : res A) : res B :=
   match r with Ok a => Ok (f a) | Err e => Err e end.
 
+(* one option of a section: nothing for a key:meta option, else the update with its metadata *)
+Definition file_item (q : quirks) (path : string) (rvars : list (string * string)) (sec : string) (has_prof : bool)
+           (prof : string) (opts : list (string * option (list string))) (kv : string * option (list string))
+  : list (res upd) :=
+  let key := fst kv in
+  if has_char colon key then []
+  else
+    let m := flat_map (fun kv2 : string * option (list string) =>
+                         if prefix_b (key ++ ":") (fst kv2)
+                         then [(snd (partition_on colon (fst kv2)), meta_value q (snd kv2))] else [])
+                      opts in
+    let value := match opt_value (snd kv) with None => Ok "None" | Some v => py_replace q rvars None v end in
+    [match py_replace q rvars None key, value with
+     | Ok k', Ok v' => Ok (Upd sec k' v' (if has_prof then Some prof else None) path m)
+     | Err e, _ => Err e
+     | _, Err e => Err e
+     end].
+
 Definition section_items (q : quirks) (path : string) (rvars : list (string * string))
            (sn : string) (opts : list (string * option (list string))) : list (res upd) :=
   let '(sec, has_prof, prof) := partition_dunder sn in
   match sec with
   | EmptyString => []
-  | _ =>
-      flat_map
-        (fun kv =>
-           let key := fst kv in
-           if has_char colon key then []
-           else
-             let m := flat_map (fun kv2 => if prefix_b (key ++ ":") (fst kv2)
-                                           then [(snd (partition_on colon (fst kv2)), meta_value q (snd kv2))] else [])
-                               opts in
-             let value := match opt_value (snd kv) with None => Ok "None" | Some v => py_replace q rvars None v end in
-             [match py_replace q rvars None key, value with
-              | Ok k', Ok v' => Ok (Upd sec k' v' (if has_prof then Some prof else None) path m)
-              | Err e, _ => Err e
-              | _, Err e => Err e
-              end])
-        opts
+  | _ => flat_map (file_item q path rvars sec has_prof prof opts) opts
   end.
 
 (* {k: v for k, v in section.items()}; a key without value has value None = unknown variable *)
@@ -928,7 +1021,8 @@ Inductive query : Set :=
 
 Record typed : Set := Typed {
   t_str : string; t_list : list string; t_tuple : list string; t_as_list : list string;
-  t_dict : list (string * string); t_as_dict : res (list (string * string)); t_bool : res bool; t_int : res Z }.
+  t_dict : list (string * string); t_as_dict : res (list (string * string)); t_bool : res bool; t_int : res Z;
+  t_float : res fval }.
 
 Definition content : Set := list (string * list (string * string * meta)).
 
@@ -956,7 +1050,7 @@ Definition answer (q : quirks) (c : config) (qu : query) : obs :=
               | None => Err ErrEntry
               | Some e => let v := e_val e in
                           Ok (Typed v (val_list v) (val_list v) (val_as_list v) (val_dict v) (val_as_dict v)
-                                    (val_bool v) (val_int v))
+                                    (val_bool v) (val_int v) (val_float v))
               end)
   | QReplaced sn key default extra =>
       AText (match lookup2 (c_view c) sn key with
@@ -993,7 +1087,7 @@ Definition typed_eqb (a b : typed) : bool :=
   String.eqb (t_str a) (t_str b) && strs_eqb (t_list a) (t_list b) && strs_eqb (t_tuple a) (t_tuple b)
   && strs_eqb (t_as_list a) (t_as_list b) && kvs_eqb (t_dict a) (t_dict b)
   && res_eqb kvs_eqb (t_as_dict a) (t_as_dict b) && res_eqb Bool.eqb (t_bool a) (t_bool b)
-  && res_eqb Z.eqb (t_int a) (t_int b).
+  && res_eqb Z.eqb (t_int a) (t_int b) && res_eqb fval_agree (t_float a) (t_float b).
 
 Definition content_eqb : content -> content -> bool :=
   list_eqb (pair_eqb String.eqb (list_eqb (pair_eqb (pair_eqb String.eqb String.eqb) meta_eqb))).
